@@ -28,8 +28,9 @@ namespace Named
 /-! ## detection -/
 
 /-- **C19, detection (partial: class `detectOK`).** For every template of the grammar in which, up to the first
-    named placeholder, each positional placeholder is followed by a literal character or ends the template, the
-    compile-time flag is true iff a named placeholder occurs. -/
+    named placeholder, each positional placeholder ends the template or is followed by a literal character or by
+    another positional placeholder, the compile-time flag is true iff a named placeholder occurs. Excluded: a
+    positional placeholder directly followed by a named one, by `{{` or by `}}` — one counter-witness each below. -/
 theorem C19_detect_partial (ps : List Piece) (hw : wf ps = true) (hok : detectOK ps = true) :
     containsNamedArgs (render ps) = ps.any Piece.isNamed :=
   contains_render ps hw hok
@@ -45,8 +46,8 @@ theorem detectOK_of_allNamed : ∀ (ps : List Piece), allNamed ps = true → det
     cases p with
     | field n s =>
       have : (n != []) = true := by simpa [Piece.isField, Piece.isNamed] using h.1
-      simp [detectOK, this]
-    | _ => simpa [detectOK] using ih
+      simp [detectOK, detOK, this]
+    | _ => simpa [detectOK, detOK] using ih
 
 /-- **C19, detection, on the property's grammar** (`(text | "{{" | "}}" | "{" ident [":" spec] "}")*`, no positional
     placeholders): unconditional. -/
@@ -69,6 +70,10 @@ theorem C19_detect_named_only (ps : List Piece) (hw : wf ps = true) (hn : allNam
 example : let ps := [Piece.text 'x', .escOpen, .text ' ', .field ['a'] (some ['>', '5']), .field ['b'] none, .text ' ', .escClose]
     wf ps = true ∧ allNamed ps = true ∧ detectOK ps = true ∧ ps.any Piece.isNamed = true ∧
     containsNamedArgs (render ps) = true := by decide
+
+/-- positional-only templates such as `"{}{} {:>5}{}"` are in the class (and not flagged) -/
+example : let ps := [Piece.field [] none, .field [] none, .text ' ', .field [] (some ['>', '5']), .field [] none]
+    wf ps = true ∧ detectOK ps = true ∧ containsNamedArgs (render ps) = false := by decide
 
 /-- **F11, detection, false negative**: `"{}{a}"` is in the grammar, contains the named placeholder `a`, and is
     not detected (the `{` after the first placeholder's `}` is skipped by the trailing `++pos`). -/
@@ -258,7 +263,7 @@ theorem C19_logj (tp : List Piece) (hw : wf tp = true) (hn : noFields tp = true)
       have hxne : (x != []) = true := by simpa using (hx x (by simp)).2
       rw [C19_detect_partial _ hwf (by
         apply detectOK_prefix tp _ hn
-        simp [detectOK, hxne])]
+        simp [detectOK, detOK, hxne])]
       simp only [logjPieces]
       rw [any_named_prefix tp _ hn]
       simp [Piece.isNamed, hxne]
